@@ -1,6 +1,6 @@
 (* C09 — rolling operations are per-group sliding-window reductions. *)
 From Coq Require Import List ZArith Bool.
-From GL Require Import Lib.Arr Lib.Keyed Model.Dom Model.Rolling Proofs.RowGeneric Proofs.RollingInv.
+From GL Require Import Lib.Arr Lib.Keyed Model.Dom Model.Rolling Proofs.RowGeneric Proofs.RollingInv Proofs.CumSpec Proofs.RollSpec Proofs.RollExt Spec.RowSpec.
 Import ListNotations.
 Open Scope Z_scope.
 
@@ -89,6 +89,53 @@ Proof.
            (fun a b _ _ => zops_sub_add_cancel false nullv a b) w mp wm l v).
 Qed.
 Print Assumptions C09_sum_mean_int.
+
+(* ---- THE statement, whole arrays: any number of interleaved groups, any mask, null keys, any window
+   >= 1 and min_periods: the kernel output equals the sliding-window definition written with positions
+   (Spec/RowSpec: the last `window` selected rows of the row's group ending at it) ---- *)
+Theorem C09_rolling_sum_mean_is_window_float gk (vals : list fl) ng w mp mask wm :
+  (0 < w)%nat -> length vals = length gk -> wf_mask (length gk) mask -> (forall k, In k gk -> k < Z.of_nat ng) ->
+  rolling_sum_or_mean fops gk vals ng w mp mask wm =
+  window_spec fops (if wm then RMean else RSum) w (match mp with Some m => m | None => Z.of_nat w end) gk vals mask.
+Proof. exact (rolling_sum_is_spec fops fops_laws fops_sum_closed fops_sub_add_cancel gk vals ng w mp mask wm). Qed.
+Theorem C09_rolling_sum_mean_is_window_int nullv gk (vals : list Z) ng w mp mask wm :
+  (0 < w)%nat -> length vals = length gk -> wf_mask (length gk) mask -> (forall k, In k gk -> k < Z.of_nat ng) ->
+  rolling_sum_or_mean (zops false nullv) gk vals ng w mp mask wm =
+  window_spec (zops false nullv) (if wm then RMean else RSum) w (match mp with Some m => m | None => Z.of_nat w end) gk vals mask.
+Proof.
+  exact (rolling_sum_is_spec _ (zops_laws false nullv) (zops_never_null_closed nullv)
+           (fun a b _ _ => zops_sub_add_cancel false nullv a b) gk vals ng w mp mask wm).
+Qed.
+Theorem C09_shift_diff_is_spec {V} (o : ops V) gk vals ng w mask ws :
+  (0 < w)%nat -> length vals = length gk -> wf_mask (length gk) mask -> (forall k, In k gk -> k < Z.of_nat ng) ->
+  rolling_shift_or_diff o gk vals ng w mask ws = shift_spec o w ws gk vals mask.
+Proof. exact (rolling_shift_is_spec o gk vals ng w mask ws). Qed.
+(* rolling max / min, whole arrays: the improvement test and the recomputation over the circular
+   buffer together maintain the maximum (minimum) of the non-null values among the last `window`
+   selected rows of the group; null unless at least min_periods of them are non-null *)
+Theorem C09_rolling_max_min_is_window_float gk (vals : list fl) ng w mp mask (want_max : bool) :
+  (0 < w)%nat -> length vals = length gk -> wf_mask (length gk) mask -> (forall k, In k gk -> k < Z.of_nat ng) ->
+  rolling_max_or_min fops gk vals ng w mp mask want_max =
+  window_spec fops (if want_max then RMax else RMin) w (match mp with Some m => m | None => Z.of_nat w end) gk vals mask.
+Proof.
+  destruct want_max;
+  [exact (rolling_max_is_spec fops fops_laws fops_null_unique gk vals ng w mp mask)
+  |exact (rolling_min_is_spec fops fops_laws fops_null_unique gk vals ng w mp mask)].
+Qed.
+Theorem C09_rolling_max_min_is_window_int nullable nullv gk (vals : list Z) ng w mp mask (want_max : bool) :
+  (0 < w)%nat -> length vals = length gk -> wf_mask (length gk) mask -> (forall k, In k gk -> k < Z.of_nat ng) ->
+  rolling_max_or_min (zops nullable nullv) gk vals ng w mp mask want_max =
+  window_spec (zops nullable nullv) (if want_max then RMax else RMin) w (match mp with Some m => m | None => Z.of_nat w end) gk vals mask.
+Proof.
+  destruct want_max;
+  [exact (rolling_max_is_spec _ (zops_laws nullable nullv) (zops_null_unique nullable nullv) gk vals ng w mp mask)
+  |exact (rolling_min_is_spec _ (zops_laws nullable nullv) (zops_null_unique nullable nullv) gk vals ng w mp mask)].
+Qed.
+Print Assumptions C09_rolling_max_min_is_window_float.
+Print Assumptions C09_rolling_max_min_is_window_int.
+Print Assumptions C09_rolling_sum_mean_is_window_float.
+Print Assumptions C09_rolling_sum_mean_is_window_int.
+Print Assumptions C09_shift_diff_is_spec.
 
 Example C09_example :
   (snd (sum_step (zops false 0) 3 2 false (run_sum (zops false 0) 3 2 false [5; 1; 2; 7]) (10, true)) = 19) /\
